@@ -79,7 +79,9 @@ def gen_cases(r: Run):
     for li in range(nlists):
         n = rng.choice([1, 2, 3, 4, 5, 8, 13, 21, 34, 64]) if li % 3 else rng.randint(1, 64)
         l = gen_list(rng, n, normalised=(li % 2 == 0))
-        origin = l[0][0]
+        # the origin is a field of its own: only sometimes the first peak's m/z
+        origin = l[0][0] if li % 3 == 0 else Fraction(rng.randint(50 * 64, 3000 * 64), 64)
+        is_norm = sum(i for _, i in l) == 1
         ths = thresholds(rng, l)
         def add(op, args, exact=True):
             cases.append(dict(op=op, origin=origin, peaks=l, args=args, exact=exact, kind="grid"))
@@ -91,7 +93,9 @@ def gen_cases(r: Run):
         add("droplast", [])
         for t in ths:
             add("trunc", [t])
-            add("incr", [t / max(Fraction(1), sum(i for _, i in l))], exact=False)
+            # on a list that sums to exactly 1 normalisation is the identity in f64 as well, so a threshold
+            # sitting exactly on a cumulative sum is decided exactly on both sides
+            add("incr", [t / max(Fraction(1), sum(i for _, i in l))], exact=is_norm)
         its = sorted(set(i for _, i in l))
         igs = [Fraction(0), its[0], its[-1], its[-1] + Fraction(1, 1024), its[len(its) // 2],
                (its[0] + its[-1]) / 2, Fraction(-1)]
@@ -188,7 +192,7 @@ def compare(c, impl_line, drv_line):
         return "broken", f"driver said {drv_line[:100]}"
     model_s, spec_s, margin_s = parts
     margin = None if margin_s == "inf" else Fraction(margin_s)
-    boundary = margin is not None and margin < MARGIN and not (c.get("exact") and c["op"] in ("trunc", "ignore"))
+    boundary = margin is not None and margin < MARGIN and not (c.get("exact") and c["op"] in ("trunc", "ignore", "incr"))
     if c["op"] == "eq":
         if boundary:
             return "skipped", ""
